@@ -255,6 +255,17 @@ impl Property for C20 {
                 names.push(nm);
             }
         }
+        // names that differ only in the case of their letters are different directories
+        // (SDL-1.2 next to sdl-1.2): sometimes one of the packages gets such a sibling
+        if !many && !names.is_empty() && rng.chance(1, 5) {
+            let src = names[rng.usize_below(names.len())].clone();
+            if src.iter().any(|b| b.is_ascii_alphabetic()) {
+                let flipped: Vec<u8> = src.iter().map(|b| if b.is_ascii_lowercase() { b.to_ascii_uppercase() } else { b.to_ascii_lowercase() }).collect();
+                if !names.contains(&flipped) {
+                    names.push(flipped);
+                }
+            }
+        }
         // swarm: how often installs are interrupted in this run
         let crash_rate = *rng.pick(&[0u64, 2, 4, 8]);
         let pkgs: Vec<PkgDir> = names
@@ -298,6 +309,16 @@ impl Property for C20 {
                 let s = rng.pick(&STRAYS).to_string();
                 if !strays.contains(&s) && !pkgs.iter().any(|p| p.name == s.as_bytes()) {
                     strays.push(s);
+                }
+            }
+        }
+        // ... and sometimes a stray plain file is named like a package in the other case
+        if !pkgs.is_empty() && rng.chance(1, 8) {
+            let src = &pkgs[rng.usize_below(pkgs.len())].name;
+            if let Ok(t) = std::str::from_utf8(src) {
+                let flipped: String = t.chars().map(|c| if c.is_ascii_lowercase() { c.to_ascii_uppercase() } else { c.to_ascii_lowercase() }).collect();
+                if flipped != t && !strays.contains(&flipped) && !pkgs.iter().any(|p| p.name == flipped.as_bytes()) {
+                    strays.push(flipped);
                 }
             }
         }
